@@ -118,7 +118,7 @@ CHECKS = {
               " send-race: 1..3 bidi streams whose sender goroutine never pauses; explicit cancel after 0..60 scheduler yields; the sender must get an error, the pending receive the context's status, the handler's context must end."
               " In half of the scenarios the transport write that carries the caller's reset takes 0.2, 2 or 5 s of virtual time (a congested but reliable transport) before it completes; the reset must still reach the server (staged at the positions where no operation of the caller is pending: counters.positions_with_stalled_reset_write)."),
         jobs=[dict(test="TestC07", quick=1280, thorough=6000), dict(test="TestC07Open", quick=800, thorough=8000), dict(test="TestC07SendRace", quick=1600, thorough=16000), dict(test="FuzzC07", kind="fuzz", quick=0, thorough=90)],
-        floors={"TestC07:unread>=3": 0.08, "TestC07:deadline=true": 0.3, "TestC07:kind=bidi": 0.2, "TestC07:kind=server": 0.2, "TestC07:kind=client": 0.2, "TestC07:park_send=true": 0.05, "TestC07:cause=true": 0.1, "TestC07:stats=true": 0.15, "TestC07:reset_write_stalls=true": 0.3},
+        floors={"TestC07:unread>=3": 0.08, "TestC07:deadline=true": 0.3, "TestC07:kind=bidi": 0.2, "TestC07:kind=server": 0.2, "TestC07:kind=client": 0.2, "TestC07:park_send=true": 0.05, "TestC07:cause=true": 0.1, "TestC07:stats=true": 0.15, "TestC07:reset_write_stalls=true": 0.3, "TestC07:slow_unary=true": 0.3},
         assumptions=COMMON_ASSUMPTIONS + ["handlers that ignore >=2 queued requests and then wait are documented head-of-line blocking and generated under C11, not here"],
     ),
     "C11": dict(
